@@ -229,6 +229,14 @@ func genC01Cases(ctx *Ctx) []c01Input {
 			}
 		}
 	}
+	// a mark bound on a traveler that has an element and bound again after a null-producing move took it away
+	for _, nm := range []tStmt{{Op: "outNull", Strs: []string{"nolabel"}}, {Op: "inENull"}, {Op: "outENull", Strs: []string{"knows"}}} {
+		for _, end := range [][]tStmt{{{Op: "select", Strs: []string{"m1"}}}, {{Op: "select", Strs: []string{"m1"}}, {Op: "render", Tpl: map[string]interface{}{"c": "_gid", "m": "$m1._gid"}}},
+			{{Op: "has", Has: &hExpr{Kind: "cond", Key: "$m1.name", Op: "eq", Arg: "x"}}}, {{Op: "select", Strs: []string{"m1", "m2"}}}} {
+			p := append([]tStmt{{Op: "V"}, {Op: "as", Str: "m1"}, {Op: "as", Str: "m2"}, nm, {Op: "as", Str: "m1"}}, end...)
+			inputs = append(inputs, c01Input{Driver: "badger", Graph: fg, Prog: p})
+		}
+	}
 	// a tree with fan-out 3 below every vertex down to depth 3: sibling travelers with long paths (traveler copies must not
 	// share state), walked with every mix of moves, marks and path() / select() at the end
 	tg := treeGraph()
